@@ -157,13 +157,17 @@ def class_specs(draw, name, earlier, allow_hooks=True):
             c['sav'] = 'raise'
         elif h == 5 and params:
             c['sav'] = {'rebuild': draw(st.sampled_from([q['n'] for q in params]))}
-        elif h == 6 and dparams:
-            q = draw(st.sampled_from(dparams))
-            # (1.0 == True and 0.0 == False: values that collide in an untyped cache)
-            val = q['d']['v']
-            if q['t'] == 'float':
-                val = draw(st.sampled_from([0.0, 1.0, val]))
-            c['sav'] = {'default': q['n'], 'value': val}
+        elif h in (6, 7) and dparams:
+            # fill in every omitted scalar default (1.0 == True and 0.0 == False: values
+            # that collide in an untyped cache; the filled value may differ from the
+            # Python default, as when a file format has its own defaults)
+            fill = []
+            for q in dparams:
+                val = q['d']['v']
+                if q['t'] == 'float':
+                    val = draw(st.sampled_from([0.0, 1.0, val]))
+                fill.append([q['n'], val])
+            c['sav'] = {'fill': fill}
         elif h in (3, 4) and (any(p['d'] is not None for p in params) or c['base']):
             c['swe'] = 'defaults'
         c['rec'] = draw(st.integers(0, 7)) == 0
